@@ -49,7 +49,7 @@ def run_demo(d, tree, work):
         return worst, outs[-900:]
     if os.path.exists(shd):
         txt = open(shd).read()
-        if "TAPKEE" in txt:
+        if "TAPKEE" in txt or "bin/tapkee" in txt:
             # the demonstration drives the CLI: build it for this tree and hand it over
             os.makedirs(os.path.join(tree, "bin"), exist_ok=True)
             exe = os.path.join(tree, "bin", "tapkee")
